@@ -101,6 +101,9 @@ func H_C05_forest() {
 		_, isErr := objs[i].(*object.PanErr)
 		rt.Assert(!isErr, "bear / bro / literal must build an object")
 	}
+	// using the objects as ** expansions of calls (a function call and a property call) is not an
+	// operation on the forest: every lookup below must still follow the model
+	h.EvalNoPanic(`nop := {|| \_}; nop(**o0, **o1); o1.id(**o1, **o0); nop(**o1, **{zq: 1})`)
 	chain := func(j int) []int {
 		var c []int
 		for k := j; k >= 0; k = parent[k] {
